@@ -500,6 +500,49 @@ def noChunk : Op → Bool
   | .chunk .. => false
   | _ => true
 
+theorem linkZ_blob_eq (hash : Bytes → Digest) (zc fixed : Bool) (k : Disk) (name : Bytes) (d : Digest) :
+    (linkZ hash zc fixed k name d).1.blob = k.blob := by
+  have hl : (link hash fixed k name d).1.blob = k.blob := by
+    unfold link
+    split
+    · rfl
+    · split
+      · rfl
+      · dsimp only
+        split
+        · split
+          · rfl
+          · split <;> rfl
+        · rfl
+  unfold linkZ
+  split
+  · rfl
+  · split
+    · rfl
+    · exact hl
+
+theorem resolve_blobOK (hash : Bytes → Digest) (k : Disk) (name : Bytes) (h : BlobOK hash k) :
+    BlobOK hash (resolve hash k name).1 := by
+  simp only [resolve]
+  split
+  · split <;> exact h
+  · split
+    · exact h
+    · split
+      · exact h
+      · split <;> exact put_blobOK hash k _ _ _ h
+
+theorem resolve_mans (hash : Bytes → Digest) (k : Disk) (name : Bytes) :
+    (resolve hash k name).1.mans = k.mans := by
+  simp only [resolve]
+  split
+  · split <;> rfl
+  · split
+    · rfl
+    · split
+      · rfl
+      · split <;> rfl
+
 theorem stepOp_blobOK (hash : Bytes → Digest) (fixed zc : Bool) (k : Disk) (op : Op) (hn : noChunk op = true)
     (h : BlobOK hash k) : BlobOK hash (stepOp hash fixed zc k op).1 := by
   cases op with
@@ -545,6 +588,16 @@ theorem stepOp_blobOK (hash : Bytes → Digest) (fixed zc : Bool) (k : Disk) (op
     · split
       · exact h
       · exact hl fixed
+  | linkR name d =>
+    by_cases hfire : linkRFires hash fixed zc k name d = true
+    · simp only [stepOp, hfire, if_true]
+      intro d' f hf
+      rw [linkZ_blob_eq] at hf
+      exact resolve_blobOK hash k name h d' f hf
+    · simp only [stepOp, hfire, Bool.false_eq_true, if_false]
+      intro d' f hf
+      rw [linkZ_blob_eq] at hf
+      exact h d' f hf
   | unlink name =>
     simp only [stepOp, unlink]
     split
@@ -723,6 +776,12 @@ theorem history_manifests_confined (hash : Bytes → Digest) (fixed zc : Bool) :
       split <;> exact h
     | get d => exact h
     | link name d => exact (link_confined hash zc fixed k name d h).2
+    | linkR name d =>
+      by_cases hfire : linkRFires hash fixed zc k name d = true
+      · simp only [stepOp, hfire, if_true]
+        exact (link_confined hash zc fixed (resolve hash k name).1 name d (by rw [resolve_mans]; exact h)).2
+      · simp only [stepOp, hfire, Bool.false_eq_true, if_false]
+        exact (link_confined hash zc fixed k name d h).2
     | unlink name => exact (unlink_confined k name h).2
     | resolve name =>
       simp only [stepOp, resolve]
@@ -757,5 +816,146 @@ theorem crash_history_trusted (hash : Bytes → Digest) (d : Digest) (size : Nat
   | refl => exact h0
   | put st' s p _ hc ih => exact single_writer_crash_safe hash d size s st' ih p hc
   | imp st' n s es p _ hi hc ih => exact import_crash_safe hash n s st' d es hi p hc size ih
+
+/-! ## Link as effects on the manifest file: crash cuts and concurrent Resolve -/
+
+/-- `linkFileEffs` IS what the repaired `Link` does to the manifest of a valid name: same result, and the
+    manifest file ends as the effects leave it -/
+theorem linkZ_file_effs (hash : Bytes → Digest) (zc : Bool) (k : Disk) (name : Bytes) (d : Digest)
+    (want : MPath) (hp : nameToPath name = some want) :
+    (linkZ hash zc true k name d).2 =
+      (linkFileEffs hash zc (manGet k.mans (manifestPathOf k.mans want)) (k.blob d) d).2 ∧
+    manGet (linkZ hash zc true k name d).1.mans (manifestPathOf k.mans want) =
+      run (linkFileEffs hash zc (manGet k.mans (manifestPathOf k.mans want)) (k.blob d) d).1
+        (manGet k.mans (manifestPathOf k.mans want)) := by
+  cases hb : k.blob d with
+  | none =>
+    have hL : linkZ hash zc true k name d = (k, .notExist) := by
+      unfold linkZ link; simp [hp, hb]
+    rw [hL]; simp [linkFileEffs]
+  | some f =>
+    by_cases hz : zc = true ∧ f = [] ∧ d ≠ hash []
+    · have hL : linkZ hash zc true k name d = (k, .notExist) := by
+        unfold linkZ
+        have : zc = true ∧ k.blob d = some [] ∧ d ≠ hash [] := ⟨hz.1, by rw [hb, hz.2.1], hz.2.2⟩
+        simp only [hp]
+        rw [if_pos this]
+      rw [hL]; simp [linkFileEffs, hz]
+    · have hz2 : ¬ (zc = true ∧ k.blob d = some [] ∧ d ≠ hash []) := by
+        rintro ⟨a, b, c⟩
+        rw [hb] at b
+        exact hz ⟨a, by simpa using b, c⟩
+      rw [linkZ_eq_link hash zc true k name d hz2]
+      by_cases hm : (manGet k.mans (manifestPathOf k.mans want)).map hash = some d
+      · have hL : link hash true k name d = (k, .ok) := by
+          unfold link; simp only [hp, hb, if_true, hm]
+        have hE : linkFileEffs hash zc (manGet k.mans (manifestPathOf k.mans want)) (some f) d
+            = ([.openRead], .ok) := by
+          unfold linkFileEffs; simp only [hz, if_false, hm, if_true]
+        rw [hL, hE]; simp [run, applyEff]
+      · by_cases hr : (copyNamedEffs hash none d f.length ⟨[f], .eof⟩).2 = .ok
+        ·
+          have hf : run (copyNamedEffs hash none d f.length ⟨[f], .eof⟩).1 none = some f := by
+            by_cases hl : f.length = 0
+            · have : f = [] := List.eq_nil_of_length_eq_zero hl
+              subst this
+              simp [copyNamedEffs, afterStat, statTrunc, run, applyEff]
+            · have hr' := hr
+              unfold copyNamedEffs at hr' ⊢
+              simp only [Option.map_none, reduceCtorEq, if_false] at hr' ⊢
+              rw [afterStat_res _ _ _ _ _ hl] at hr'
+              rw [afterStat_effs_ok _ _ _ _ _ hl hr']
+              have := copyLoop_ok hash d f.length [] (by simp; omega) [f] [] .eof (seenOK_nil hash d _ hl) hr'
+              simp only [overlay_nil, List.nil_append, List.flatten_cons, List.flatten_nil, List.append_nil] at this
+              simp only [run_cons, run_append, applyEff, statTrunc, this.1]
+              rfl
+          have hL : link hash true k name d =
+              ({ k with mans := manSet k.mans (manifestPathOf k.mans want) (some f) }, .ok) := by
+            unfold link; simp only [hp, hb, if_true, hm, if_false, hr, hf]
+          have hE : linkFileEffs hash zc (manGet k.mans (manifestPathOf k.mans want)) (some f) d
+              = ([.openRead, .replace f], .ok) := by
+            unfold linkFileEffs; simp only [hz, if_false, hm, hr]
+          rw [hL, hE]
+          simp [manGet_manSet_same, run, applyEff]
+        · have hL : link hash true k name d = (k, (copyNamedEffs hash none d f.length ⟨[f], .eof⟩).2) := by
+            unfold link; simp only [hp, hb, if_true, hm, if_false]
+          have hE : linkFileEffs hash zc (manGet k.mans (manifestPathOf k.mans want)) (some f) d
+              = ([.openRead], (copyNamedEffs hash none d f.length ⟨[f], .eof⟩).2) := by
+            unfold linkFileEffs; simp only [hz, if_false, hm]
+          rw [hL, hE]; simp [run, applyEff]
+
+/-- **Link is atomic on the manifest under crashes** (tree variant: temp + rename, zero-length refusal).  Whatever
+    the manifest and the blob file are, every crash cut of `Link`'s effects leaves the manifest exactly as it was,
+    or holding the blob's complete bytes, which hash to `d`.  No cut exposes an empty or partial manifest. -/
+theorem link_crash_atomic (hash : Bytes → Digest) (man blob : FileSt) (d : Digest) (p : List Eff)
+    (hc : Cut (linkFileEffs hash true man blob d).1 p) :
+    run p man = man ∨ ∃ f, run p man = some f ∧ blob = some f ∧ hash f = d := by
+  unfold linkFileEffs at hc
+  cases blob with
+  | none => cases hc; exact Or.inl rfl
+  | some f =>
+    simp only at hc
+    split at hc
+    · cases hc; exact Or.inl rfl
+    · next hz =>
+      split at hc
+      · cases hc with
+        | stop => exact Or.inl rfl
+        | next _ _ p' hc' => cases hc'; exact Or.inl rfl
+      · split at hc
+        · next hr =>
+          have hh : hash f = d := by
+            by_cases hl : f.length = 0
+            · have hf : f = [] := List.eq_nil_of_length_eq_zero hl
+              by_cases hd : d = hash []
+              · rw [hf]; exact hd.symm
+              · exact absurd ⟨by trivial, hf, hd⟩ hz
+            · unfold copyNamedEffs at hr
+              simp only [Option.map_none, reduceCtorEq, if_false] at hr
+              rw [afterStat_res _ _ _ _ _ hl] at hr
+              have := copyLoop_ok hash d f.length [] (by simp; omega) [f] [] .eof (seenOK_nil hash d _ hl) hr
+              simpa using this.2.2
+          cases hc with
+          | stop => exact Or.inl rfl
+          | next _ _ p' hc' =>
+            cases hc' with
+            | stop => exact Or.inl rfl
+            | next _ _ p'' hc'' =>
+              cases hc''
+              exact Or.inr ⟨f, by simp [run, applyEff], rfl, hh⟩
+        · cases hc with
+          | stop => exact Or.inl rfl
+          | next _ _ p' hc' => cases hc'; exact Or.inl rfl
+
+/-- **Every name that resolves, resolves to a digest somebody asked for.**  Let `S` hold of the digests that
+    acknowledged Links of this name asked for, and let the manifest currently hash into `S` (or be absent).  Then at
+    every crash cut of a `Link(name, d)` — equivalently, at every moment a concurrent `Resolve` can read the
+    manifest while that Link is in flight, since each such moment is a prefix of its effects — the manifest is
+    absent or its bytes hash to a digest in `S` or to `d`.  (`Resolve` returns exactly that hash:
+    `resolve_hash_of_file`.) -/
+theorem link_cut_resolves_asked (hash : Bytes → Digest) (S : Digest → Prop) (man blob : FileSt) (d : Digest)
+    (h0 : ∀ g, man = some g → S (hash g)) (p : List Eff)
+    (hc : Cut (linkFileEffs hash true man blob d).1 p) :
+    ∀ g, run p man = some g → S (hash g) ∨ hash g = d := by
+  intro g hg
+  rcases link_crash_atomic hash man blob d p hc with h | ⟨f, hf, _, hh⟩
+  · rw [h] at hg; exact Or.inl (h0 g hg)
+  · rw [hf] at hg; cases hg; exact Or.inr hh
+
+/-- the in-place first Link of seeded change C08-E, as effects, and its cut that the repaired Link cannot have:
+    the name exists with EMPTY content after the open, so it resolves to the digest of the empty string -/
+theorem inplace_first_link_exposes_empty_manifest :
+    let f : Bytes := [1, 2, 3]
+    let inplace := (copyNamedEffs idh none f 3 ⟨[f], .eof⟩).1
+    Cut inplace [.openCreate false] ∧ run [.openCreate false] none = some [] ∧
+    ¬ (∃ p, Cut (linkFileEffs idh true none (some f) f).1 p ∧ run p none = some []) := by
+  refine ⟨?_, by decide, ?_⟩
+  · have : (copyNamedEffs idh none [1, 2, 3] 3 ⟨[[1, 2, 3]], .eof⟩).1 =
+        [.openCreate false, .pwrite 0 [1, 2, 3], .close] := by decide
+    rw [this]; exact Cut.next _ _ _ (Cut.stop _)
+  · rintro ⟨p, hc, hr⟩
+    rcases link_crash_atomic idh none (some [1, 2, 3]) [1, 2, 3] p hc with h | ⟨f, hf, hb, _⟩
+    · rw [h] at hr; cases hr
+    · rw [hf] at hr; cases hb; cases hr
 
 end OllamaVerif.C08
